@@ -15,6 +15,10 @@
           takeover modes, any fragmentation, mixed with uncompressed messages and control
           frames) fed to the real client *and* to the Lean core model (which inflates them with
           Model/Inflate.lean).
+   Two shapes of `Deflate.decompress` are handled (finding D6): `world.bfinal_safe()` probes the real
+   class with the RFC 7692 7.2.3.4 pair; the model driver is started with the matching inflater
+   (`zsafe=1` -> Inflate.inflateAllSafe).  On the repaired shape the real class is also compared, at
+   unit level, with a zdict-restart reference on histories full of BFINAL=1 blocks.
    (S) oracle (model-free): the zlib peer / the original plaintext: original content or a
        ProtocolError, never different content; RSV1 only when negotiated and requested; the
        largest match distance of every compressed message (measured by an independent RFC 1951
@@ -87,6 +91,30 @@ def zlib_feed(w, chunks):
     return 'ok', bytes(out)
 
 
+def zlib_feed_safe(w, chunks):
+    """reference for the repaired `Deflate.decompress`: whenever the deflate stream ends (BFINAL=1)
+       the rest goes to a new decompressobj(-w) that knows the last 2^w bytes of output (here through
+       `zdict`, which the patch itself cannot use: Python 2)"""
+    wsize = 1 << w
+    d = zlib.decompressobj(-w)
+    out = bytearray()
+    try:
+        for c in chunks:
+            data = c
+            while True:
+                out += d.decompress(data)
+                if not d.eof:
+                    break
+                data = d.unused_data
+                win = bytes(out[-wsize:])
+                d = zlib.decompressobj(-w, zdict=win) if win else zlib.decompressobj(-w)
+                if not data:
+                    break
+    except zlib.error as e:
+        return 'error', str(e)
+    return 'ok', bytes(out)
+
+
 def zlib_stream(rng, w, plains, level=None, strategy=None, mem=None, flushes=None, finish=False):
     """list of compressed pieces, one per plaintext (pieces are NOT stripped of their tails)"""
     level = rng.choice([0, 1, 6, 9]) if level is None else level
@@ -119,7 +147,7 @@ def random_tokens(rng, n, have):
     return toks, produced
 
 
-def crafted_stream(rng, nblocks, final_at=None):
+def crafted_stream(rng, nblocks, final_at=None, align_after_final=False):
     """hand-encoded blocks (stored / fixed / dynamic mixed); returns (bytes, plaintext if valid)"""
     bw = refcodec.BitWriter()
     hist = bytearray()
@@ -137,6 +165,8 @@ def crafted_stream(rng, nblocks, final_at=None):
                 refcodec.put_fixed_block(bw, toks, fin)
             else:
                 refcodec.put_dynamic_block(bw, toks, fin, use_repeats=(k == 'dynamic'))
+        if fin and align_after_final:
+            bw.align()
     refcodec.sync_tail(bw)
     return bw.bytes(), bytes(hist)
 
@@ -355,6 +385,13 @@ def inflate_cases(rng, tier):
         z, plain = crafted_stream(rng, rng.choice([1, 2, 3, 6]), final_at=rng.choice([None, None, None, 0, 1]))
         add(15, [z], 'crafted')
         streams.append((15, [z]))
+    # blocks that go on after a BFINAL=1 block, at the next byte boundary (a new deflate stream that
+    # refers back into the old one): what the repaired decompress must read, and zlib's object must not
+    for i in range(40 if quick else 400):
+        z, plain = crafted_stream(rng, rng.choice([2, 3, 6]), final_at=rng.choice([0, 0, 1, 2]), align_after_final=True)
+        w = rng.choice([15, 15, 9, 12])
+        add(w, cut(z, coreutil.random_cuts(rng, len(z), rng.choice([0, 1, 3]))) or [z], 'crafted-after-final', plain_safe=plain if w == 15 else None)
+        streams.append((w, [z]))
     for name, z in odd_blocks():
         for w in (9, 15):
             add(w, [z], 'odd:' + name)
@@ -382,45 +419,153 @@ def inflate_cases(rng, tier):
 
 
 def check_inflater(res, rng, tier, model_ok):
+    """both inflaters of Model/Inflate.lean: `inflate` (zlib's object: BFINAL ends everything) against
+       zlib itself, `inflatesafe` (the repaired Deflate.decompress: a new stream after BFINAL, same
+       window) against the zdict-restart reference"""
     cases = inflate_cases(rng, tier)
-    lines = ['inflate %d %s' % (c['w'], b''.join(c['chunks']).hex()) for c in cases]
-    models = runner.model_run(lines) if model_ok else [None] * len(lines)
-    lenient = 0
-    for c, line, m in zip(cases, lines, models):
-        st, val = zlib_feed(c['w'], c['chunks'])
-        real = 'ok ' + val.hex() if st == 'ok' else 'error'
-        z = b''.join(c['chunks'])
-        res.case(('inflate', c['w'], z), nontrivial=len(z) > 4)
-        res.count('inflate:' + c['kind'].split('-l')[0].split(':')[0].split('-d')[0])
-        res.count('inflate:zlib-' + st)
-        res.traces_validated += 1
-        if c.get('plain') is not None and st == 'ok' and val != c['plain']:
-            res.failures.append(dict(cls='zlib-roundtrip', what='zlib inflate of zlib deflate differs from the plaintext', input=line[:2000]))
-        if 'expect_ok' in c and c['expect_ok'] != (st == 'ok'):
-            res.diffs.append(dict(input=line[:300], real=real[:200], model='(window-edge expectation: ok=%s)' % c['expect_ok'], note='zlib does not follow the strict window rule where it was expected to'))
-        if m is None or m == real:
-            continue
-        if m == 'error' and st == 'ok':
-            # the one tolerated difference: a distance beyond 2^wbits that zlib serves from the
-            # output of the same inflate() call.  Judged by the independent decoder.
-            try:
-                ref = refcodec.inflate_log(z)
-                tolerated = ref['max_dist'] > (1 << c['w'])
-            except refcodec.InflateError:
-                # the reference decoder insists on complete blocks; retry on the strict prefix rule
-                tolerated = False
-                try:
-                    refcodec.inflate_log(z, max_window=1 << c['w'])
-                except refcodec.InflateError as e:
-                    tolerated = 'distance too far back' in str(e)
-            if tolerated:
-                lenient += 1
-                res.count('inflate:zlib-lenient-window')
+    total = 0
+    lenient = {'inflate': 0, 'inflatesafe': 0}
+    for op, feed in (('inflate', zlib_feed), ('inflatesafe', zlib_feed_safe)):
+        lines = ['%s %d %s' % (op, c['w'], b''.join(c['chunks']).hex()) for c in cases]
+        models = runner.model_run(lines) if model_ok else [None] * len(lines)
+        for c, line, m in zip(cases, lines, models):
+            st, val = feed(c['w'], c['chunks'])
+            real = 'ok ' + val.hex() if st == 'ok' else 'error'
+            z = b''.join(c['chunks'])
+            res.case((op, c['w'], z), nontrivial=len(z) > 4)
+            if op == 'inflate':
+                res.count('inflate:' + c['kind'].split('-l')[0].split(':')[0].split('-d')[0])
+            res.count(op + ':zlib-' + st)
+            res.traces_validated += 1
+            total += 1
+            if op == 'inflate' and c.get('plain') is not None and st == 'ok' and val != c['plain']:
+                res.failures.append(dict(cls='zlib-roundtrip', what='zlib inflate of zlib deflate differs from the plaintext', input=line[:2000]))
+            if op == 'inflatesafe' and c.get('plain_safe') is not None and (st != 'ok' or val != c['plain_safe']):
+                res.diffs.append(dict(input=line[:600], real=real[:200], model='(expected plaintext %s)' % c['plain_safe'][:40].hex(),
+                                      note='the zdict-restart reference does not return what the hand-encoded blocks mean'))
+            if 'expect_ok' in c and c['expect_ok'] != (st == 'ok'):
+                res.diffs.append(dict(input=line[:300], real=real[:200], model='(window-edge expectation: ok=%s)' % c['expect_ok'], note='zlib does not follow the strict window rule where it was expected to'))
+            if m is None or m == real:
                 continue
-        res.diffs.append(dict(input=line[:3000], real=real[:600], model=m[:600], kind=c['kind']))
-    res.notes.append('inflater validation: %d streams, %d where zlib accepted a distance beyond 2^wbits inside one inflate() call (model: error)' % (len(cases), lenient))
-    res.samples += [lines[0][:200], 'inflate 15 f348cdc9c90700000000fffff248cdc9c907000000ffff']
-    return len(cases)
+            if m == 'error' and st == 'ok':
+                # the one tolerated difference: a distance beyond 2^wbits that zlib serves from the
+                # output of the same inflate() call.  Judged by the independent decoder.
+                stop = (op == 'inflate')
+                try:
+                    ref = refcodec.inflate_log(z, stop_at_final=stop)
+                    tolerated = ref['max_dist'] > (1 << c['w'])
+                except refcodec.InflateError:
+                    # the reference decoder insists on complete blocks; retry on the strict prefix rule
+                    tolerated = False
+                    try:
+                        refcodec.inflate_log(z, max_window=1 << c['w'], stop_at_final=stop)
+                    except refcodec.InflateError as e:
+                        tolerated = 'distance too far back' in str(e)
+                if tolerated:
+                    lenient[op] += 1
+                    res.count(op + ':zlib-lenient-window')
+                    continue
+            res.diffs.append(dict(input=line[:3000], real=real[:600], model=m[:600], kind=c['kind']))
+    res.notes.append('inflater validation: %d streams x 2 inflaters; zlib accepted a distance beyond 2^wbits inside one inflate() call (model: error) on %d / %d of them'
+                     % (len(cases), lenient['inflate'], lenient['inflatesafe']))
+    res.samples += ['inflate 15 f348cdc9c90700000000fffff248cdc9c907000000ffff', 'inflatesafe 15 f348cdc9c90700000000fffff248cdc9c907000000ffff']
+    return total
+
+
+# ---------------------------------------------------------------------------------------------
+# A'. the real `Deflate.decompress` on histories with BFINAL=1 blocks (repaired shape only)
+
+class RefInflater:
+    """message-level reference: zlib + `zdict` restart after every end of stream"""
+
+    def __init__(self, w, reset):
+        self.w, self.reset = w, reset
+        self.d = zlib.decompressobj(-w)
+        self.win = b''
+        self.restarts = 0
+
+    def message(self, parts):
+        out = bytearray()
+        for c in list(parts) + [TAIL]:
+            data = c
+            while True:
+                out += self.d.decompress(data)
+                if not self.d.eof:
+                    break
+                data = self.d.unused_data
+                self.restarts += 1
+                win = (self.win + bytes(out))[-(1 << self.w):]
+                self.d = zlib.decompressobj(-self.w, zdict=win) if win else zlib.decompressobj(-self.w)
+                if not data:
+                    break
+        if self.reset:
+            self.d, self.win = zlib.decompressobj(-self.w), b''
+        else:
+            self.win = (self.win + bytes(out))[-(1 << self.w):]
+        return bytes(out)
+
+
+def real_deflate_histories(items):
+    from lomond.compression import Deflate
+    from lomond.frame import Frame
+    outs = []
+    for w, reset, msgs in items:
+        d = Deflate(w, 15, reset, False)
+        res = []
+        for parts in msgs:
+            try:
+                res.append(bytes(d.decompress([Frame(2 if i == 0 else 0, p, fin=1 if i == len(parts) - 1 else 0) for i, p in enumerate(parts)])).hex())
+            except zlib.error:
+                res.append('error')
+                break
+        outs.append(res)
+    return outs
+
+
+def check_deflate_unit(res, rng, tier):
+    if not world.bfinal_safe():
+        res.notes.append('Deflate.decompress unit run skipped: the code under test is the unrepaired shape (D6 is reported by the connection scenarios)')
+        return 0
+    items = []
+    for _ in range(300 if tier == 'quick' else 4000):
+        w = rng.choice([15, 15, 15, 8, 9, 10, 12])
+        reset = rng.random() < 0.25
+        msgs = []
+        for k in range(rng.choice([1, 2, 3, 5])):
+            r = rng.random()
+            if r < 0.45:
+                z, _ = crafted_stream(rng, rng.choice([1, 2, 3]), final_at=rng.choice([None, 0, 0, 1]), align_after_final=True)
+                z = z[:-4]
+            elif r < 0.6:
+                c = zlib.compressobj(rng.choice([1, 6, 9]), zlib.DEFLATED, -max(9, w))
+                z = c.compress(gen_plain(rng, rng.choice(['text', 'runs', 'empty']), rng.choice([0, 5, 300, 3000]))) + c.flush(zlib.Z_FINISH) + b'\x00'
+            elif r < 0.7:
+                z = bytes.fromhex(rng.choice(['f348cdc9c9070000', 'f248cdc9c90700', 'f200110000', '0300', '01000000ffff']))
+            else:
+                z = zlib_stream(rng, max(9, w), [gen_plain(rng, rng.choice(['text', 'mixed', 'rand']), rng.choice([1, 40, 700, 40000]))])[0][:-4]
+            if rng.random() < 0.08:
+                z = corrupt(rng, z)
+            msgs.append(cut(z, coreutil.random_cuts(rng, len(z), rng.choice([0, 0, 1, 3]))) or [z])
+        items.append((w, reset, msgs))
+    reals = real_deflate_histories(items)
+    for (w, reset, msgs), real in zip(items, reals):
+        ref = RefInflater(w, reset)
+        want = []
+        for parts in msgs:
+            try:
+                want.append(ref.message(parts).hex())
+            except zlib.error:
+                want.append('error')
+                break
+        res.case(('deflate-unit', w, reset, tuple(b''.join(p) for p in msgs)), nontrivial=True)
+        res.count('deflate-unit:' + ('error' if 'error' in want else 'ok'))
+        res.traces_validated += 1
+        if real != want:
+            k = next((i for i, (a, b) in enumerate(zip(real, want)) if a != b), min(len(real), len(want)))
+            res.failures.append(dict(cls='wrong-content-unit', what='Deflate.decompress differs from the zdict-restart reference at message %d' % k,
+                                     input='w=%d reset=%s msgs=%s' % (w, reset, [[p.hex() for p in parts] for parts in msgs])[:3000],
+                                     observed=[x[:80] for x in real[k:k + 1]], expected=[x[:80] for x in want[k:k + 1]]))
+    return len(items)
 
 
 # ---------------------------------------------------------------------------------------------
@@ -689,7 +834,11 @@ def special_scenarios(rng, tier):
     def mk(cfg, msgs, mode, expected, extra=None):
         sw, cw, snt, cnt = cfg
         sc = Scenario([], prate=0, compress=True)
-        frames = b''.join(server_frame(op, wire, rsv1=1) for op, wire in msgs)
+        frames = b''
+        for op, wire in msgs:
+            frs = wire if isinstance(wire, list) else [wire]          # a list = the fragments of the message
+            for i, part in enumerate(frs):
+                frames += server_frame(op if i == 0 else 0, part, fin=1 if i == len(frs) - 1 else 0, rsv1=1 if i == 0 else 0)
         data = sc.good_reply(spell_header(rng, sw, cw, snt, cnt)) + frames
         sc.env = reads(cut(data, coreutil.random_cuts(rng, len(data), rng.choice([0, 2])))) + [('wait', 1, ('eof',))]
         meta = dict(cfg=list(cfg), kind=mode, negotiated=True, expected=expected, srv=[], mode=mode)
@@ -714,12 +863,49 @@ def special_scenarios(rng, tier):
             msgs.append((2, c.compress(p) + c.flush(zlib.Z_FINISH) + b'\x00'))
             exp.append('E:binary:' + p.hex())
         mk((15, rng.randint(8, 15), snt, 0), msgs, 'bfinal', exp)
+    # ... hand-encoded messages in which a BFINAL=1 block is followed (at the next byte boundary) by
+    # further blocks that refer back across it and into earlier messages; fragments cut right
+    # after the final block, inside it, anywhere.  Expected content: what the blocks mean according
+    # to the independent decoder (every block of the message, window carried over).
+    for _ in range(6 if tier == 'quick' else 120):
+        snt = rng.choice([0, 0, 0, 1])
+        sw = rng.choice([15, 15, 12, 9])
+        ctx = bytearray()
+        msgs, exp = [], []
+        for k in range(rng.choice([2, 3, 4])):
+            bw = R.BitWriter()
+            plain = bytearray()
+            marks = []
+            nb = rng.choice([1, 2, 3])
+            fin_at = rng.choice([None, 0, 0, nb - 1]) if k < 3 else None
+            for b in range(nb):
+                toks, _ = random_tokens(rng, rng.choice([1, 3, 20, 60]), len(ctx) + len(plain))
+                toks = [t if isinstance(t, int) else (min(t[0], 1 << sw), t[1]) for t in toks]      # a conforming peer
+                plain += R.expand_tokens(toks, bytes(ctx + plain))
+                fin = (fin_at == b)
+                rng.choice([R.put_fixed_block, R.put_dynamic_block])(bw, toks, fin)
+                if fin:
+                    bw.align()
+                    marks.append(len(bw.out))
+            # the data ends with an empty stored block minus its last four bytes; when the last block
+            # is the final one this is the single 00 byte of RFC 7692 7.2.3.4
+            R.sync_tail(bw)
+            wire = bw.bytes()[:-4]
+            ref = R.inflate_log(wire + TAIL, bytes(ctx), stop_at_final=False)
+            assert ref['out'] == bytes(plain), 'encoder / reference decoder disagree'
+            cuts = [m for m in marks if rng.random() < 0.6] + coreutil.random_cuts(rng, len(wire), rng.choice([0, 0, 1, 2]))
+            msgs.append((2, cut(wire, cuts) or [wire]))
+            exp.append('E:binary:' + bytes(plain).hex())
+            if not snt:
+                ctx += plain
+                del ctx[:-40000]
+        mk((sw, rng.randint(8, 15), snt, 0), msgs, 'bfinal', exp)
     # corrupted compressed payloads (server window 15, where zlib's window test and the strict one coincide)
     for _ in range(12 if tier == 'quick' else 150):
         snt = rng.randint(0, 1)
         peer = DeflatePeer(15, 15, bool(snt), False)
         msgs, ref = [], []
-        d = zlib.decompressobj(-15)
+        d = RefInflater(15, bool(snt))      # what the (corrupted) data means: every block, window carried over
         bad_at = rng.randrange(3)
         failed = False
         for i in range(3):
@@ -730,14 +916,12 @@ def special_scenarios(rng, tier):
             msgs.append((2, wire))
             if not failed:
                 try:
-                    o = d.decompress(wire) + d.decompress(TAIL)
-                    ref.append('E:binary:' + o.hex())
-                    if snt:
-                        d = zlib.decompressobj(-15)
+                    ref.append('E:binary:' + d.message([wire]).hex())
                 except zlib.error:
                     ref.append('ERR')
                     failed = True
-        mk((15, 15, snt, 0), msgs, 'corrupted', ref)
+        # a flipped bit can set BFINAL: then the pinned code shows finding D6 on this history
+        mk((15, 15, snt, 0), msgs, 'corrupted', ref, dict(had_final=d.restarts > 0))
     # invalid parameters in the response: the handshake must be refused (Rejected), nothing delivered
     bad_exts = ['permessage-deflate; %s=%s' % (k, v) for k in KEYS for v in ('7', '16', '0', '-8', 'abc', '', '""', '8.5', '1e1', '99')]
     bad_exts += ['permessage-deflate; client_max_window_bits', 'permessage-deflate; server_max_window_bits',
@@ -904,6 +1088,9 @@ def judge(res, js, line, meta, r):
         if not ok:
             cls = {'bfinal': 'bfinal-context-takeover', 'corrupted': 'wrong-content-corrupted', 'window-violation': 'window-violation-delivered',
                    'window-edge': 'window-edge-refused'}[mode]
+            if mode == 'corrupted' and meta.get('had_final'):
+                cls = 'bfinal-context-takeover'
+
             fail(cls, 'a compressed message was delivered with content that differs from what its DEFLATE data means (and no ProtocolError)'
                  if mode == 'bfinal' else 'compressed message neither delivered with the reference content nor refused',
                  observed=[e[:120] for e in evs], expected=[e[:120] for e in exp])
@@ -1049,6 +1236,7 @@ def explore(res, tier, seed, model_ok=True):
                 '(RFC 7692 7.2.3.4, with and without context takeover), corrupted payloads and a peer that ignores the negotiated window. '
                 'non-trivial = a compressed message takes part; distinct by (configuration, history, wire bytes)') % ('64 (spread)' if tier == 'quick' else 'all 256')
     check_inflater(res, rng, tier, model_ok)
+    check_deflate_unit(res, rng, tier)
     check_params(res, rng, tier, model_ok)
     check_connections(res, rng, tier, model_ok)
 
